@@ -153,7 +153,14 @@ def write_crate(tag, jobs, nbins, features=(), main_mode="seq"):
 
 
 def build_and_run(tag, jobs, nbins=None, features=(), run_timeout=120, build_timeout=1500, main_mode="seq"):
-    """returns {job id: [result per script]}; compile errors are attributed to jobs and the rest is rebuilt"""
+    """returns {job id: [result per script]}; compile errors are attributed to jobs and the rest is rebuilt.
+    Two checks using the same tag at the same time (the same check started twice, or two properties sharing a family) are serialised:
+    the crate directory and its binaries are keyed by the tag."""
+    with lib.Lock("prog_tag_" + re.sub(r"\W", "_", tag)):
+        return _build_and_run(tag, jobs, nbins, features, run_timeout, build_timeout, main_mode)
+
+
+def _build_and_run(tag, jobs, nbins=None, features=(), run_timeout=120, build_timeout=1500, main_mode="seq"):
     nbins = nbins or min(lib.NCPU, max(1, len(jobs) // 4))
     results = {}
     todo = list(jobs)
